@@ -17,7 +17,7 @@ META = {
                    'sign axioms for symbolic t and exact for t <= 6); variance non-negativity as an inductive step through the real '
                    'explainers (the value fed to the variance tracker is recorded and proved >= 0).',
     'bounds': {'quick': {'d': '1..4', 'flavours': 'py,np,mixed', 'modes': 'sum,delta,other', 't_exact': '0..6'},
-               'thorough': {'d': '1..5', 'flavours': 'py,np,mixed', 'modes': 'sum,delta,other', 't_exact': '0..10'}},
+               'thorough': {'d': '1..6', 'flavours': 'py,np,mixed', 'modes': 'sum,delta,other', 't_exact': '0..16'}},
     'outside': ['floating-point rounding (e.g. a sum that is zero only after rounding)', 'confidence bound before any variance '
                 'exists (first call): the formula is undefined there', 'strict positivity at alpha = 1 and variance = 0, where the '
                 'stated formula itself evaluates to 0'],
@@ -28,7 +28,7 @@ META = {
 
 def configs(tier):
     cfgs = []
-    dmax = 4 if tier == 'quick' else 5
+    dmax = 4 if tier == 'quick' else 6
     for d in range(1, dmax + 1):
         for fl in ('py', 'np', 'mixed'):
             for mode in ('sum', 'delta'):
@@ -41,7 +41,7 @@ def configs(tier):
             cfgs.append(dict(group='variance_step', cls=cls, d=2, q=1, m=1, mode=mode, imputer='joint', storage='batch'))
             cfgs.append(dict(group='variance_step', cls=cls, d=2, q=2, m=2, mode=mode, imputer='joint', storage='batch', _cost=50))
             cfgs.append(dict(group='confidence', cls=cls, d=2, mode=mode, t='sym'))
-        tmax = 6 if tier == 'quick' else 10
+        tmax = 6 if tier == 'quick' else 16
         for t in range(0, tmax + 1):
             cfgs.append(dict(group='confidence', cls=cls, d=1, mode='dynamic', t=t))
         cfgs.append(dict(group='confidence_delta_domain', cls=cls, d=1, mode='dynamic'))
